@@ -866,7 +866,9 @@ def o_crlf(case):
     hdrs = hdr if isinstance(hdr, list) else [hdr]
     if any(("\r" in h or "\n" in h) for h in hdrs if h != ABSENT):
         return ("crlf:%s:accepted" % kind, "resp.%s = %r is not refused; stored %s: %r" % (attr, value, key, hdr))
-    return None
+    # the statement: a string containing CR or LF is REFUSED -- also when a serializer would normalise it away
+    return ("crlf:%s:not-refused" % kind, "resp.%s = %r (a string containing CR or LF) is not refused; %s is now %r"
+            % (attr, value, key, hdr))
 
 
 # ----------------------------------------------------------------------------------------------
@@ -1481,6 +1483,24 @@ def short(v):
     return t if len(t) < 120 else t[:100] + "..."
 
 
+def o_invalid(case):
+    """an INVALID Range / Content-Range value: either refused, or what is stored is still a line in the field's wire syntax"""
+    side, attr = case["side"], case["attr"]
+    key, kind = table(side)[attr]
+    r = mk(side, key, None)
+    try:
+        setattr(r, attr, dec(case["value"]))
+    except (ValueError, TypeError, AssertionError):
+        return None
+    except Exception as e:  # noqa
+        return ("shape:%s:raises-%s" % (kind, type(e).__name__), "%s.%s = %r raises %s" % (side, attr, case["value"], type(e).__name__))
+    hdr = raw(side, r, key)
+    if hdr != ABSENT and not (isinstance(hdr, str) and WIRE[kind].match(hdr)):
+        return ("wire:%s:invalid-value-stored" % kind, "%s.%s = %r is accepted and stores %s: %r, which is not in the field's wire syntax"
+                % (side, attr, dec(case["value"]), key, hdr))
+    return None
+
+
 def o_emptylist(case):
     Request, Response = webob()
     r = Response()
@@ -1628,7 +1648,7 @@ def shapes_sweep(ctx):
 # ----------------------------------------------------------------------------------------------
 # dispatch, TZ workers, replay
 # ----------------------------------------------------------------------------------------------
-ORACLES = {"total": o_total, "rt": o_rt, "crlf": o_crlf, "cc": o_cc, "dtext": o_dtext, "hist": o_hist, "perm": o_perm, "self": o_self, "shape": o_shape, "emptylist": o_emptylist}
+ORACLES = {"total": o_total, "rt": o_rt, "crlf": o_crlf, "cc": o_cc, "dtext": o_dtext, "hist": o_hist, "perm": o_perm, "self": o_self, "shape": o_shape, "emptylist": o_emptylist, "invalid": o_invalid}
 
 
 def run_case(case):
@@ -1775,6 +1795,28 @@ def oracle_sweep(ctx):
                 report(ctx, o_rt(case), case, "roundtrip")
                 n += 1
     ctx.oracle_count("content-type-params-ascii", n, n)
+    # ---- every (start, stop) / (start, stop, length) up to the bound that is NOT valid: refused, or still wire syntax
+    n = 0
+    b = ctx.scale(6, 12)
+    for s_ in range(-2, b):
+        for e_ in list(range(-2, b)) + [None]:
+            if e_ is None or 0 <= s_ < e_:
+                continue
+            for t in ("tuple", "list"):
+                case = {"o": "invalid", "side": "req", "attr": "range", "value": {"t": t, "v": [s_, e_]}}
+                report(ctx, o_invalid(case), case, "roundtrip")
+                n += 1
+            if e_ >= 0:
+                case = {"o": "invalid", "side": "req", "attr": "range", "value": {"t": "range_obj", "v": [s_, e_]}}
+                report(ctx, o_invalid(case), case, "roundtrip")
+                n += 1
+            for l_ in list(range(-1, b)) + [None]:
+                if 0 <= s_ < e_ and (l_ is None or e_ <= l_):
+                    continue
+                case = {"o": "invalid", "side": "resp", "attr": "content_range", "value": {"t": "tuple", "v": [s_, e_, l_]}}
+                report(ctx, o_invalid(case), case, "roundtrip")
+                n += 1
+    ctx.oracle_count("invalid-ranges", n, n)
     # ---- an empty list of methods is a value of Allow (RFC 7231 7.4.1: Allow = #method)
     for v in ({"t": "tuple", "v": []}, {"t": "list", "v": []}):
         case = {"o": "emptylist", "attr": "allow", "value": v}
@@ -1784,7 +1826,10 @@ def oracle_sweep(ctx):
     for attr, (key, kind) in sorted(RESP.items()):
         if attr in CRLF_EXEMPT:
             continue
-        for bad in ["a\nb", "a\rb", "a\r\nSet-Cookie: x=y", "\n", "x\n", "\ry", "bytes 0-1/2\nX: y", "W/\"a\"\n", "5\n", "Basic a\nb"]:
+        wire = {"content_range": "bytes 0-4/10", "etag": '"a"', "date": "Mon, 01 Jan 2001 00:00:00 GMT", "date_delta": "120",
+                "int": "5", "list": "GET, PUT", "auth": "Basic abc=", "str": "x"}.get(kind, "x")
+        edge = [wire + "\n", "\n" + wire, wire + "\r\n", "\r" + wire, " " + wire + " \n ", wire + "\r", "\r\n"]
+        for bad in ["a\nb", "a\rb", "a\r\nSet-Cookie: x=y", "\n", "x\n", "\ry", "bytes 0-1/2\nX: y", "W/\"a\"\n", "5\n", "Basic a\nb"] + edge:
             for init in (None, "old"):
                 case = {"o": "crlf", "attr": attr, "value": bad, "init": init}
                 report(ctx, o_crlf(case), case, "crlf")
@@ -2807,7 +2852,7 @@ MODELLED = (
     # Model/C12_AuthCT.v
     + ["webob.descriptors:" + n for n in ("_rx_auth_param", "parse_auth_params", "known_auth_schemes", "parse_auth", "serialize_auth",
                                           "CHARSET_RE")]
-    + ["webob.response:" + n for n in ("_PARAM_RE", "_OK_PARAM_RE", "_is_xml", "_content_type_has_charset", "Response._charset__get",
+    + ["webob.response:" + n for n in ("_PARAM_RE", "_OK_PARAM_RE", "_QUOTED_PAIR_RE", "_is_xml", "_content_type_has_charset", "Response._charset__get",
                                        "Response._charset__set", "Response._charset__del", "Response._content_type__get",
                                        "Response._content_type__set", "Response._content_type__del", "Response._content_type_params__get",
                                        "Response._content_type_params__set", "Response._content_type_params__del")]
